@@ -418,6 +418,67 @@ func ruleC12(c *Ctx, r *Report) {
 	if nArms < 2 {
 		r.Bad("C12-R4", "namespace-arms", "-", fmt.Sprintf("only %d Namespace arm(s) store a pseudonym under the flag (2 expected: top-level and sub-document arguments)", nArms))
 	}
+	// a Pipeline-typed array is a list of stages: it must be walked by the stage walker
+	// (which knows the Namespace / FieldName / Exempt typing of stage arguments), element
+	// by element - the query-array walker treats $lookup.from, $unionWith.coll ... of a
+	// nested stage as ordinary values
+	if sw := c.stageWalkerFn(); sw != nil {
+		nPipe := 0
+		for _, s := range p.sinks(p.Zone) {
+			if s.Kind != "set" || s.Raw {
+				continue
+			}
+			isPipe, isArr := false, false
+			for _, a := range p.atomsAt(s.Instr.Block()) {
+				if a.Kind == "tbl" && a.Pol && a.Name == "Pipeline" {
+					isPipe = true
+				}
+				if a.Kind == "typeis" && a.Pol && isAnySlice(a.Type) {
+					isArr = true
+				}
+			}
+			if !isPipe || !isArr {
+				continue
+			}
+			v := peel(s.Val)
+			if !isAnySlice(v.Type()) {
+				continue
+			}
+			nPipe++
+			okStage := false
+			detail := "the stored value is " + describeArg(v)
+			if _, _, fresh := freshSlice(v); fresh {
+				// every element store into the fresh slice is a stage-walker result
+				okStage = true
+				n := 0
+				for _, rr := range referrers(v) {
+					ia, ok := rr.(*ssa.IndexAddr)
+					if !ok {
+						continue
+					}
+					for _, r2 := range referrers(ia) {
+						if st, ok := r2.(*ssa.Store); ok && st.Addr == ssa.Value(ia) {
+							n++
+							if call, ok := peel(st.Val).(*ssa.Call); !ok || call.Call.StaticCallee() != sw {
+								okStage = false
+							}
+						}
+					}
+				}
+				if n == 0 {
+					okStage = false
+				}
+			} else if call, ok := v.(*ssa.Call); ok {
+				detail = "the array is handed to " + shortKey(calleeKey(&call.Call)) + ", which walks its elements as query documents"
+			}
+			r.Check(okStage, "C12-R4", fmt.Sprintf("%s:pipeline-arm-walker", s.Fn.Name()), c.InstrPos(s.Instr),
+				"the stages of a Pipeline-typed array are walked one by one by the stage walker",
+				"a nested pipeline is not walked by the stage walker ("+detail+"): namespace-bearing arguments of its stages ($lookup.from, $unionWith.coll, $merge.into, $out) are treated as ordinary strings - not pseudonymised consistently, and kept in clear in selective mode")
+		}
+		if nPipe < 2 {
+			r.Bad("C12-R4", "pipeline-arms", "-", fmt.Sprintf("only %d Pipeline arm(s) for array values found (2 expected)", nPipe))
+		}
+	}
 	// under the flag a Namespace-typed argument is never handed on raw when it can be a
 	// document: the {db, coll} form of $merge.into / $out / $lookup.from names collections too
 	for _, s := range p.sinks(p.Zone) {
